@@ -16,7 +16,7 @@ spec/sys/KeyLaws.tla states the laws as judgements over observations of a tuple 
   * every accessor returns the same value on every call; key.Parameters() is Equal to the parameters given.
 
 (M) MC_KeyLaws: every case (key, pair, triple, constructor refusal) of an abstract key space judged on a reference
-    implementation model (must be lawful) and on 19 faulty models ("Equal ignores a field", ...: each MUST be
+    implementation model (must be lawful) and on 20 faulty models ("Equal ignores a field", ...: each MUST be
     rejected, by the law named in the specification);
 (R) Plan_KeyLaws: TLC enumerates, per family, tuples of abstract keys from KeyParams.Cases (same, one-field-different
     for EVERY field and value, other material, other id, other kind, random mix) and every unordered pair of Go key
@@ -35,7 +35,7 @@ import vlib  # noqa: E402
 FAULTS = ["params_equal_ignores_hash", "key_equal_ignores_variant", "key_equal_ignores_id", "key_equal_ignores_material",
           "crunchy_prefix_01", "legacy_prefix_01", "prefix_little_endian", "pubkey_other_encoding", "pubkey_drops_id",
           "id_zero_wildcard", "idreq_always_required", "hasidreq_ignores_prehash_variant", "equal_across_types",
-          "equal_one_directional", "unstable_accessor", "accepts_nonzero_id", "parameters_not_kept", "kid_not_base64_of_id",
+          "equal_one_directional", "unstable_accessor", "accessor_returns_internal_slice", "accepts_nonzero_id", "parameters_not_kept", "kid_not_base64_of_id",
           "private_equal_public_only"]
 
 # KeyParams!Fields: every (family, field) must be the differing field of at least one executed case
@@ -62,9 +62,9 @@ N_GO_TYPES = 42
 
 # thorough tier: (families, base records per family) per TLC process; None = every other family (and the Go type pairs).
 # Families whose keys are expensive to build (RSA validation, composite keys) get fewer base records.
-PLAN_GROUPS = [(["AesCtrHmac"], 300), (["AesCtrHmacStreaming", "Hmac"], 300), (["Ecies"], 200),
+PLAN_GROUPS = [(["AesCtrHmac"], 800), (["AesCtrHmacStreaming", "Hmac"], 500), (["Ecies"], 500),
                (["Hpke", "HkdfPrf", "AesGcm", "AesGcmHkdfStreaming"], 300),
-               (["RsaSsaPss", "RsaSsaPkcs1", "JwtRsaSsaPkcs1", "JwtRsaSsaPss", "CompositeMlDsa"], 30), (None, 300)]
+               (["RsaSsaPss", "RsaSsaPkcs1", "JwtRsaSsaPkcs1", "JwtRsaSsaPss", "CompositeMlDsa"], 60), (None, 300)]
 QUICK_GROUPS = [(None, 3)]
 
 # what the library does NOT document and KeyLaws.tla / the driver take as built; reported, never judged
@@ -253,8 +253,8 @@ def corrupt(ev, rng):
         o["pub"]["peq"] = False
         ev["_corrupted"] = "obs.pub.peq"
     elif c == 6:
-        o["unstable"] = ["Parameters"]
-        ev["_corrupted"] = "obs.unstable"
+        o[rng.choice(["unstable", "aliased"])] = ["Parameters"]
+        ev["_corrupted"] = "obs.unstable / obs.aliased"
     else:
         return None
     return ev
@@ -265,7 +265,7 @@ def run(ctx):
     ctx.cov["rule"] = (
         "(M) every case of an abstract key space (6 families, every field over a small domain, 2 materials, 2 [3] ids: every key, "
         "every pair within a family and against a representative of every Go type, every triple of a sub-space, every "
-        "constructor-refusal case) on the reference model and on 19 faulty models; (R/T) per family 1 + 3 [40] base records "
+        "constructor-refusal case) on the reference model and on 20 faulty models; (R/T) per family 1 + 3 [40] base records "
         "(canonical + TLC -seed sample of KeyParams!Cases): same-inputs triples, EVERY field x EVERY other documented value "
         "(quick: boundary-thinned, thorough: whole domain) keeping the key material, other material, 3 other ids, private vs "
         "public, a random second record, the constructor given a non-zero id; plus all 861 unordered pairs of the 42 Go key "
@@ -335,7 +335,7 @@ MANIFEST = dict(
           "(id, true) iff HasIDRequirement iff variant # NO_PREFIX, and no constructor lets a non-zero id into a key without id "
           "requirement; OutputPrefix / JWT KID are the documented functions of (variant, id); PublicKey() is stable, corresponds "
           "and IS the public key built from the same inputs; accessors are stable; Parameters() is what was given.  MC_KeyLaws "
-          "checks the judgements on a reference model and requires 19 faulty models to be rejected by the named law; "
+          "checks the judgements on a reference model and requires 20 faulty models to be rejected by the named law; "
           "Plan_KeyLaws enumerates tuples from KeyParams.Cases (one-field-different for every field and value) and every pair "
           "of Go key types; the driver builds the real objects and TLC judges every recorded relation."),
     note=("Growth check (not one of the 20 listed properties).  'doc:' judgements contradict godoc (VIOLATION), 'exp:' ones are "
